@@ -25,6 +25,11 @@ marked CALIBRATED (they mirror what the unchanged tree does, so there the model 
 from __future__ import annotations
 
 import struct
+import sys
+
+# a Forth return stack of 1024 frames is two Python frames per level in the coroutine interpreter
+if sys.getrecursionlimit() < 12000:
+    sys.setrecursionlimit(12000)
 
 ERR = ["none", "not_ready", "is_done", "user_halt", "recursion_depth_exceeded", "stack_underflow",
        "stack_overflow", "read_beyond", "seek_beyond", "skip_beyond", "rewind_beyond", "division_by_zero",
@@ -231,7 +236,7 @@ class Model:
 
     @property
     def done(self):
-        return len(self.gens) == 0 and not self.halted
+        return len(self.gens) == 0
 
     # driver-facing: each returns an error name
     def run(self):
@@ -276,7 +281,7 @@ class Model:
             self.error = e.kind
             return e.kind
         except Halt:
-            # CALIBRATED (tests/test_0648 test_halt): not ready any more, and not reported as done
+            # CALIBRATED: after halt the machine is not ready any more and reports is_done
             self.ready = False
             self.halted = True
             self.gens = []
@@ -549,9 +554,11 @@ class Model:
         count = 1
         if rep:
             count = self._pop()
+            if count < 0:
+                raise ForthErr("read_beyond")      # a negative number of items cannot be read
         out = None if dest == "stack" else self.outs[dest]
         if kind in ("varint", "zigzag"):
-            for _ in range(max(count, 0)):
+            for _ in range(count):
                 shift = 0
                 result = 0
                 while True:
@@ -575,8 +582,6 @@ class Model:
                         out.items.append(out.conv_int(result))
             return
         if kind == "nbit":
-            if count < 0:
-                raise Unspecified("negative repeat count for an n-bit read")
             mask = (1 << nbits) - 1
             if count == 0:
                 return
@@ -604,8 +609,6 @@ class Model:
                 remaining -= 1
             return
         code, size, vkind = READ[kind]
-        if count < 0:
-            raise ForthErr("read_beyond")      # a negative number of items cannot be read
         raw = self._take(name, count * size)
         if count == 0:
             return
@@ -655,6 +658,8 @@ class Model:
             if not out.items:
                 raise ForthErr("rewind_beyond")
             if n > 0:
+                if n > 100000:
+                    raise Budget()      # a legal but enormous output: outside the explored size bound
                 out.items.extend([out.items[-1]] * n)
         elif op == "len":
             self._push(len(out.items))
@@ -723,7 +728,7 @@ def render_body(body, sep=" "):
             parts.append(node[1])
         else:
             raise AssertionError(node)
-    return " ".join(p for p in parts if p != "" or True).replace("  ", " ")
+    return " ".join(parts)
 
 
 def render(program) -> str:
